@@ -9,7 +9,7 @@ from .c05 import env_of
 
 PLAN = {
     "quick": {"shards": 8, "cases": 600, "min_nontrivial": 2500, "budget_s": 300},
-    "thorough": {"shards": 16, "cases": 3500, "min_nontrivial": 30000, "budget_s": 1500},
+    "thorough": {"shards": 16, "cases": 10000, "min_nontrivial": 56000, "budget_s": 1500},
 }
 RULE = ("schemas with nested schemas, config types, lists of schemas / config types (index 0, middle, last, equal "
         "items), typed lists and dicts and friendly names; for every declared leaf path a value the reference model "
